@@ -88,7 +88,12 @@ def replay(ctx, functionals, prefix):
                     P, B, E, Q = build(f, kA, kB, kE, kM, ctx.seed)
                     named = [(nm, t_) for nm, t_ in (("A", P), ("B", B), ("E", E), ("M", Q)) if t_ is not None and t_.requires_grad]
                     leaves = [t_ for _, t_ in named]
-                    out = evaluate(f, P, B, E, Q, method, dict(opts), False)
+                    if n % 3 == 0:
+                        import contextlib, io
+                        with xitorch.enable_debug(), contextlib.redirect_stdout(io.StringIO()):       # debug mode: operators are checked (shape, linearity, adjoint) before use
+                            out = evaluate(f, P, B, E, Q, method, dict(opts), False)
+                    else:
+                        out = evaluate(f, P, B, E, Q, method, dict(opts), False)
                     ref = evaluate(f, P, B, E, Q, None, {}, True)
                     if not torch.allclose(out, ref, atol=tol, rtol=tol):
                         why = "value differs from the dense reference by %.2e" % float((out - ref).abs().max())
